@@ -10,7 +10,7 @@
      one_point_crossover found no pair of equivalent subtrees - property C17 says nothing
      about depth, and every pair (member of graph 1, member of graph 2) is allowed;
    * exchange_edges: the two edge samples; exchange_parents_one/both: the selected node.
-   subgraph_crossover is not modelled (covered by the oracle `cx_holds_b` only). *)
+   * subgraph_crossover: the chosen link, the pairs cut by the while loop, the random connections. *)
 From Coq Require Import List Arith Bool.
 From GolemV Require Import Graph.Heap Graph.Ops Evo.Mutations.
 Import ListNotations.
@@ -142,12 +142,119 @@ Definition exchange_parents_both (sel : option ref) (s : cstate) : res cstate :=
       Ok (h7, (g1b, g2a)))))))
   end.
 
+(* ------------------------------------------------------------------ subgraph_crossover *)
+(* neighbours ignoring the direction of the links: node.nodes_from and graph.node_children(node) *)
+Definition nbrs (h : heap) (g : graph) (r : ref) : list ref := pars h r ++ node_children h g r.
+
+(* _bfs of get_connected_components: the undirected component of x (as a set; listed below in
+   graph order, as the code does with sorted(component, key=graph.nodes.index)) *)
+Definition component (h : heap) (g : graph) (x : ref) : res (list ref) :=
+  dfs_add (nbrs h g) (S (length h)) [] x.
+
+Definition in_order (g comp : list ref) : list ref := filter (fun r => memb r comp) g.
+
+(* node_first, node_second = choice(simple_paths[0]):
+   disconnect(first, second) if first in second.nodes_from else disconnect(second, first) *)
+Definition cut_pair (s : state) (ab : ref * ref) : res state :=
+  let a := fst ab in let b := snd ab in
+  if memb a (pars (fst s) b) then disconnect_nodes (fst s) (snd s) a b false
+  else disconnect_nodes (fst s) (snd s) b a false.
+
+Fixpoint cut_all (cuts : list (ref * ref)) (s : state) : res state :=
+  match cuts with
+  | [] => Ok s
+  | c :: t => bind (cut_pair s c) (cut_all t)
+  end.
+
+(* get_subgraphs(graph).
+   first = the (parent, child) pair `target, source = choice(edges)`; cuts = the pairs cut by the
+   while loop, in order (each is taken from a shortest simple undirected path between source and
+   target: an oracle answer here; a pair that is not a link of the graph cuts nothing).  The loop
+   ends exactly when source and target are in different undirected components: a cut list that
+   leaves them connected is not a run of the function (Unmodelled).
+   Result: heap, (component of source, component of target) in graph order, division points
+   (`division_points.union(...)` discards its result: the set stays {source, target}).
+   Without any link the code returns deepcopy([nodes, nodes]) - ONE batch of copies listed twice -
+   and division points that are copies from ANOTHER deepcopy, hence never found in a subgraph. *)
+Definition get_subgraphs (h : heap) (g : graph) (first : option (ref * ref)) (cuts : list (ref * ref))
+  : res (heap * (list ref * list ref) * list ref) :=
+  if null (edges h g) then
+    let copies := seq (length h) (length g) in
+    Ok (h ++ map (get h) g, (copies, copies), [])
+  else match first with
+       | None => Raise Unmodelled
+       | Some ts =>
+           let tgt := fst ts in let src := snd ts in
+           bind (disconnect_nodes h g tgt src false) (fun s1 =>
+           bind (cut_all cuts s1) (fun s2 =>
+           bind (component (fst s2) (snd s2) src) (fun c_src =>
+           if memb tgt c_src then Raise Unmodelled
+           else bind (component (fst s2) (snd s2) tgt) (fun c_tgt =>
+                Ok (fst s2, (in_order (snd s2) c_src, in_order (snd s2) c_tgt), [src; tgt])))))
+       end.
+
+(* OptGraph([*first, *second]): add_node for every listed node *)
+Fixpoint add_all (h : heap) (l : list ref) (g : graph) : res graph :=
+  match l with
+  | [] => Ok g
+  | n :: t => bind (add_node_g h g n) (add_all h t)
+  end.
+
+Fixpoint remove_nth (i : nat) (l : list ref) : list ref :=
+  match l, i with
+  | [], _ => []
+  | _ :: t, O => t
+  | x :: t, S i' => x :: remove_nth i' t
+  end.
+
+(* for _ in range(connections_num): pop a random point of each side; a coin decides the direction.
+   conns = (index in first_points, index in second_points, random() > 0.5) per iteration; an
+   index out of range or a missing entry is not a run of the function *)
+Fixpoint connect_loop (num : nat) (conns : list (nat * nat * bool)) (fp sp : list ref) (s : state) : res state :=
+  match num with
+  | O => Ok s
+  | S k =>
+      match conns with
+      | [] => Raise Unmodelled
+      | (i, j, coin) :: rest =>
+          match nth_error fp i, nth_error sp j with
+          | Some a, Some b =>
+              bind (if coin then connect_nodes (fst s) (snd s) a b else connect_nodes (fst s) (snd s) b a)
+                   (connect_loop k rest (remove_nth i fp) (remove_nth j sp))
+          | _, _ => Raise Unmodelled
+          end
+      end
+  end.
+
+(* connect_subgraphs(first_subgraph, second_subgraph, first_div_points, second_div_points) *)
+Definition connect_subgraphs (h : heap) (A B divA divB : list ref) (conns : list (nat * nat * bool)) : res state :=
+  let fp := filter (fun r => memb r divA) A in
+  let sp := filter (fun r => memb r divB) B in
+  let num := Nat.min (length fp) (length sp) in
+  let h1 := renew_uids (map (fun r => uid (get h r)) A) B h in
+  bind (add_all h1 (A ++ B) []) (fun g => connect_loop num conns fp sp (h1, g)).
+
+Record sub_choices := mkSub {
+  sc_first1 : option (ref * ref); sc_cuts1 : list (ref * ref);
+  sc_first2 : option (ref * ref); sc_cuts2 : list (ref * ref);
+  sc_conns1 : list (nat * nat * bool); sc_conns2 : list (nat * nat * bool) }.
+
+Definition subgraph_crossover (c : sub_choices) (s : cstate) : res cstate :=
+  let h := fst s in let g1 := fst (snd s) in let g2 := snd (snd s) in
+  bind (get_subgraphs h g1 (sc_first1 c) (sc_cuts1 c)) (fun x =>
+  bind (get_subgraphs (fst (fst x)) g2 (sc_first2 c) (sc_cuts2 c)) (fun y =>
+  let F := snd (fst x) in let S := snd (fst y) in
+  bind (connect_subgraphs (fst (fst y)) (fst F) (snd S) (snd x) (snd y) (sc_conns1 c)) (fun r1 =>
+  bind (connect_subgraphs (fst r1) (snd F) (fst S) (snd x) (snd y) (sc_conns2 c)) (fun r2 =>
+  Ok (fst r2, (snd r1, snd r2)))))).
+
 (* ------------------------------------------------------------------ the crossover functions *)
 Inductive xcall :=
 | XSubtree (c : option (ref * ref * (bool * bool)))     (* subtree_crossover and one_point_crossover *)
 | XEdges (e1 e2 : list (ref * ref))
 | XParentsOne (sel : option ref)
-| XParentsBoth (sel : option ref).
+| XParentsBoth (sel : option ref)
+| XSubgraph (c : sub_choices).
 
 Definition run_cx (c : xcall) (s : cstate) : res cstate :=
   match c with
@@ -155,6 +262,7 @@ Definition run_cx (c : xcall) (s : cstate) : res cstate :=
   | XEdges a b => exchange_edges a b s
   | XParentsOne v => exchange_parents_one v s
   | XParentsBoth v => exchange_parents_both v s
+  | XSubgraph x => subgraph_crossover x s
   end.
 
 (* ------------------------------------------------------------------ comparison with the code *)
